@@ -88,7 +88,7 @@ $(T)/%.o: props/%.cpp $(HDRS) $(B)/include/zck.h
 	@mkdir -p $(dir $@)
 	$(CXX) $(TCXXFLAGS) -c $< -o $@
 # hidden-static-state libc functions are wrapped so that TSan sees concurrent calls (lib/nonreentrant.c)
-NONREENT := close strtok localtime gmtime asctime ctime strsignal setenv unsetenv putenv setlocale drand48 lrand48 mrand48 srand48 tmpnam l64a ecvt fcvt mblen mbtowc wctomb
+NONREENT := sigaction signal chdir close strtok localtime gmtime asctime ctime strsignal setenv unsetenv putenv setlocale drand48 lrand48 mrand48 srand48 tmpnam l64a ecvt fcvt mblen mbtowc wctomb
 empty :=
 space := $(empty) $(empty)
 comma := ,
